@@ -560,12 +560,6 @@ class TimeTriggeredPlanValidator(engines.engine.Engine, mixins.PlanValidatorMixi
             ]
         ] = []
 
-        plan_duration: Fraction = (
-            max(x[0] + (x[2] if x[2] else 0) for x in start_actions)
-            if start_actions
-            else Fraction(0)
-        )
-
         next_id = 0
         for timing, effects in problem.timed_effects.items():
             instantiated_timing = self._instantiate_timing(
@@ -583,7 +577,6 @@ class TimeTriggeredPlanValidator(engines.engine.Engine, mixins.PlanValidatorMixi
                     None,
                 )
             )
-            plan_duration = max(plan_duration, scheduled_effects[-1][0])
             next_id += 1
 
         for interval, goals in problem.timed_goals.items():
@@ -592,8 +585,6 @@ class TimeTriggeredPlanValidator(engines.engine.Engine, mixins.PlanValidatorMixi
                 action_start=Fraction(0),
                 action_duration=None,
             )
-            end_interval = Fraction(-1) if iint[1] is None else iint[1]
-            plan_duration = max(plan_duration, iint[0], end_interval)
             for g in goals:
                 durative_conditions.append(
                     (
@@ -623,10 +614,12 @@ class TimeTriggeredPlanValidator(engines.engine.Engine, mixins.PlanValidatorMixi
                 if upper_bound is not None:
                     for f_e in get_all_fluent_exp(problem, f):
                         invariants.append(em.LE(f_e, upper_bound))
+        # the state invariants must hold in every state of the trace, including the
+        # one produced by the last happening of the plan
         for invariant in invariants:
             durative_conditions.append(
                 (
-                    (Fraction(0), plan_duration, False),
+                    (Fraction(0), None, False),
                     next_id,
                     invariant,
                     None,
